@@ -10,6 +10,7 @@ from . import common as C
 
 ID = "C15"
 ASSUMPTIONS = [
+    "objects of different kinds (operation / scheduled operation / schedule / instance) must compare unequal in both directions",
     "every integer attribute compared is symbolic (durations, start times); machine lists, job structure and machine assignments are enumerated",
     "demanded: reflexive, symmetric, transitive; equal for independently built objects with identical content; unequal whenever machines, "
     "durations, job structure, start times or machine assignment differ; equal operations hash equally",
@@ -167,6 +168,12 @@ def harness(eng, sp):
             core = allc = False
         r = check_pair(eng, dispA.schedule, dispB.schedule, core, allc, "C15/schedule")
         eng.observe("r", r)
+        if k == 0:
+            # objects of different kinds are never equal, in either direction
+            so = dispA.schedule.schedule[sA.machine_of[sA.history[0][0]]][0]
+            check_pair(eng, dispA.schedule, instA, False, False, "C15/schedule-vs-instance")
+            check_pair(eng, so, dispA.schedule, False, False, "C15/scheduled-operation-vs-schedule")
+            check_pair(eng, so.operation, instA, False, False, "C15/operation-vs-instance")
 
 
 def ops_harness(eng, sp):
@@ -207,6 +214,8 @@ def sops_harness(eng, sp):
             twin = ScheduledOperation(_mk_op(list(ms[0]), d[0]), s[0], ma)
             if _eq(eng, a, twin, "C15/scheduled-operation") is False:
                 eng.fail("C15/scheduled-operation/unequal-although-content-identical")
+            # objects of different kinds never hold the same content: a scheduled operation and the operation it wraps
+            check_pair(eng, a, ops[0], False, False, "C15/scheduled-operation-vs-operation")
             # same operation object, different start: must differ
             b2 = ScheduledOperation(ops[0], s[1], ma)
             check_pair(eng, a, b2, veq(s[0], s[1]), veq(s[0], s[1]), "C15/scheduled-operation")
